@@ -232,7 +232,7 @@ Proof.
   { unfold lookup. destruct (ln_eqb d [DOT]) eqn:E; [|exact L]. apply ln_eqb_eq in E. subst d. exfalso. apply ND. left. reflexivity. }
   rewrite LK. rewrite (fault_free_stat _ FFd).
   destruct (parse_parent_rep c t d _ FF WF NE ND L) as (ms & PP & SR).
-  assert (ST : exists st0, (if c_gitignore c then match parse_parent_gitignores t d with Some ms => Some (set_stack init_state ms) | None => None end
+  assert (ST : exists st0, (if c_gitignore c then match parse_parent_gitignores t d with Some ms => Some (set_stack init_state ms) | None => if c_fatal c then None else Some (set_stack init_state []) end
                              else Some init_state) = Some st0 /\ stack_rep c t (s_stack st0) d /\ s_events st0 = []).
   { destruct (c_gitignore c) eqn:G.
     - rewrite PP. exists (set_stack init_state ms). split; [reflexivity|]. split; [exact SR|reflexivity].
